@@ -10,6 +10,11 @@ def _impl_strict(case):
     return hist.impl_compute(case, allow_neg=False, full=False)
 
 
+def _boost():
+    from harness import fingerprint
+    return fingerprint.boost("l4")
+
+
 def gen_cases(rng, n):
     cases = []
     for k in range(n):
@@ -28,7 +33,7 @@ def run(tier, build, replay=None):
     out = core.Outcome("C08", tier)
     proofs = core.check_proofs(build, "C08.v")
     rng = core.Rng(core.seed(), 8)
-    cases = [replay] if replay else l2.corpus_cases("C08") + gen_cases(rng, 3000 if tier == "quick" else 40000)
+    cases = [replay] if replay else l2.corpus_cases("C08") + gen_cases(rng, 3000 * _boost() if tier == "quick" else 40000)
     strict = core.pool_map(_impl_strict, cases, init=core.impl_env_setup)
     loose = core.pool_map(l2._impl_matcher, cases, init=core.impl_env_setup)
     lines, idxs = [], []
